@@ -161,6 +161,15 @@ UNITS.append(dict(name="c10_sqrtapprox_nearest", template="C10/sqrtapprox.c", mo
 UNITS.append(dict(name="c10_sqrtapprox_clear", template="C10/sqrtapprox.c", mode="plain", entry="h_sq_clear", sources=SQ_SRC, needs=["sq_clear"], flags=PFLAGS, level="proof", backend="minisat", timeout=300, functions=["NearestNeighborsSqrtApprox::clear"],
                   canaries=[dict(name="offset_survives_clear", where="body:sq_clear", rx=r"offset_ = 0;", repl=";")]))
 
+SPL_RULES = [(r"data_\.size\(\)", "data_n", 0), (r"Node \*child = children_\[k\];", "unsigned child = k;", 0), (r"child->data_\.push_back\(data_\[j\]\);", "CHILD_PUSH(child, j);", 0),
+             (r"child->updateRadius\(", "CHILD_UPDATE_RADIUS(child, ", 0), (r"children_\[i\]->updateRange\(", "CHILD_UPDATE_RANGE(i, ", 0),
+             (r"data_\[(\w+)\]", r"VAL[\1]", 0), (r"child->pivot_", "VAL[pivots[child]]", 0)]
+for _var, _file in (("gnat", GN), ("gnatnts", NT)):
+    UNITS.append(dict(name="c10_%s_split_distribution" % _var, template="C10/gnat_split.c", mode="plain", entry="h_gnat_split", flags=PFLAGS, unwind=6, level="bounded", bound="leaves of <= 4 elements, <= 3 pivots", backend="cadical", timeout=600,
+                      functions=[("NearestNeighborsGNAT" if _var == "gnat" else "NearestNeighborsGNATNoThreadSafety") + "::Node::split (distribution loop)"],
+                      sources=[dict(name="split_distribute", file=_file, begin=r"for \(unsigned int j = 0; j < data_\.size\(\); \+\+j\)\s*\{\s*unsigned int k = 0;", end=r"for \(auto &child : children_\)\s*\{\s*// make sure|for \(auto &child : children_\)\s*\{\s*child->degree_", rules=SPL_RULES, loops={"allow_uncontracted": True})],
+                      canaries=[dict(name="pivot_recognised_by_value", where="body:split_distribute", rx=r"if \(j != pivots\[k\]\)", repl="if (DISTS[j][k] != 0.0)")]))
+
 ASSUMPTIONS = ["GNAT pruning: distances are exact integers standing for reals (linear rule: valid over the reals iff over the integers; rounding not modelled); the range/radius envelopes contain the true pivot-to-element distances (the structure invariant maintained by add/split, assumed here); the metric satisfies the triangle inequality",
                "elements are addressed by slot; the distance function returns a fixed non-NaN value per element; std::sort is an assumed contract (result ordered by the comparator)", "<= 64 stored elements"]
 TRUSTED = ["extraction rewrite table of units/C10.py", "stubs in units/C10/linear.c", "CBMC 6.11 DFCC + cadical"]
